@@ -402,6 +402,79 @@ def evaluate_state(chunk):
     return out
 
 
+ULP = 2.0 ** -52
+PRINT_MAP = ([("S", j) for j in (0, 1, 2, 3, 4, 5, 19, 20, 21, 22, 23, 24, 28, 29, 30, 25, 26, 27, 17, 18, 33, 31, 32, 6, 7)]
+             + [("X", T.X_ETA), ("S", 8), ("S", 87), ("S", 88), ("S", 89)] + [("S", 9 + j) for j in range(7)]
+             + [("S", 16), ("X", T.X_M112), ("X", T.X_M222), ("X", T.X_V1), ("X", T.X_V2), ("X", T.X_G1), ("X", T.X_G2), ("X", T.X_G3)])
+PRINT_NAMES = (["Mhh(0)", "Mhh(1)", "MAh(0)", "MAh(1)", "MHm(0)", "MHm(1)"] + ["MFu(%d)" % i for i in range(3)] + ["MFd(%d)" % i for i in range(3)]
+               + ["MFv(%d)" % i for i in range(3)] + ["MFe(%d)" % i for i in range(3)]
+               + ["MVWm", "MVZ", "v", "alpha_h", "beta", "sin(beta-alpha_h)", "cos(beta-alpha_h)", "eta", "tan(beta)", "zeta_u", "zeta_d", "zeta_l"]
+               + ["lambda%d" % i for i in range(1, 8)] + ["m122", "m112", "m222", "v1", "v2", "g1", "g2", "g3"])
+
+
+def same(a, b):
+    return a.hex() == b.hex() if (a == a or b == b) else True
+
+
+def check_overloads(acc, c, S, X, tag, P=None):
+    """every public accessor is an observation channel: array getter == indexed getter and matrix getter ==
+    element getter bitwise, derived getters consistent with each other to a few ulp, print() shows the getter
+    values to the printed digits.  Returns the S block as seen through the ARRAY getters if it differs (the
+    caller runs the oracle on it as well)."""
+    S_arr = None
+    for nm, (sl, idxs) in sorted(T.X_ARR.items()):
+        arr = X[sl]
+        if not all(same(arr[i], S[j]) for i, j in enumerate(idxs)):
+            acc.fails.append(("%s:accessor:get_%s():array!=indexed" % (tag, nm),
+                              "get_%s() returns %r but get_%s(i) returns %r" % (nm, list(arr), nm, [S[j] for j in idxs])))
+            S_arr = S_arr or list(S)
+            for i, j in enumerate(idxs):
+                S_arr[j] = arr[i]
+    for q, nm in enumerate(T.X_OVL):
+        if X[33 + q] != 0:
+            acc.fails.append(("%s:accessor:get_%s(i,k)!=matrix" % (tag, nm), "get_%s(): %d element(s) differ from get_%s(i,k)" % (nm, int(X[33 + q]), nm)))
+    v, vsq, tb, beta, ah = S[T.V], X[T.X_VSQR], S[T.TB], S[T.BETA], S[T.ALPHA_H]
+    sb, cb, sba, cba = X[T.X_SINB], X[T.X_COSB], S[T.SBA], S[T.CBA]
+    lam = S[T.LAM]
+    cons = [
+        ("v_sqr==v^2", abs(vsq - v * v), 4 * ULP * vsq),
+        ("sin_beta^2+cos_beta^2==1", abs(sb * sb + cb * cb - 1.0), 4 * ULP),
+        ("sba^2+cba^2==1", abs(sba * sba + cba * cba - 1.0), 4 * ULP),
+        ("tan_beta==sin_beta/cos_beta", abs(tb - sb / cb), 4 * ULP * tb),
+        ("beta==atan(tan_beta)", abs(beta - math.atan(tb)), 4 * ULP),
+        ("eta==pi/2+alpha_h-beta", abs(X[T.X_ETA] - (math.pi / 2 + ah - beta)), 8 * ULP * (2 + abs(ah))),
+        ("sba==sin(beta-alpha_h)", abs(sba - math.sin(beta - ah)), 8 * ULP),
+        ("cba==cos(beta-alpha_h)", abs(cba - math.cos(beta - ah)), 8 * ULP),
+        ("tan_beta==v2/v1", abs(tb - X[T.X_V2] / X[T.X_V1]), ULP * tb),
+        ("v1==v cos_beta", abs(X[T.X_V1] - v * cb), 8 * ULP * v),
+        ("v2==v sin_beta", abs(X[T.X_V2] - v * sb), 8 * ULP * v),
+        ("LambdaFive==2 m122/(v^2 sb cb)", abs(X[T.X_L5] - 2 * S[T.M122] / (vsq * tb / (1 + tb * tb))), 1e-14 * abs(X[T.X_L5])),
+        ("LambdaSixSeven==l6/sb^2-l7/cb^2", abs(X[T.X_L67] - (lam[5] / (sb * sb) - lam[6] / (cb * cb))), 1e-14 * (abs(lam[5]) / (sb * sb) + abs(lam[6]) / (cb * cb))),
+        ("MVWm==g2 v/2", abs(S[T.MW] - 0.5 * X[T.X_G2] * v), 1e-13 * S[T.MW]),
+    ]
+    gy2 = 0.6 * X[T.X_G1] ** 2
+    g22 = X[T.X_G2] ** 2
+    cons.append(("alpha_em==e^2(g1,g2)/4pi", abs(S[T.ALPHA_EM] - gy2 * g22 / (gy2 + g22) / (4 * math.pi)), 1e-14 * S[T.ALPHA_EM]))
+    m2max, _ = spectrum_scale(S)
+    scale = v * (abs(X[T.X_M112]) + abs(X[T.X_M222]) + abs(S[T.M122]) * (tb + 1 / tb) + m2max)
+    cons.append(("ewsb_eq_hh_1==0", abs(X[T.X_EW1]), TOL * scale))
+    cons.append(("ewsb_eq_hh_2==0", abs(X[T.X_EW2]), TOL * scale))
+    for nm, err, tol in cons:
+        acc.cmp("accessors", "%s:accessor-consistency:%s" % (tag, nm), err, tol, nm + " violated (err %(err).3g > %(tol).3g)")
+    if P is not None:
+        if P[T.P_MISSING] != 0:
+            acc.fails.append(("%s:print:labels" % tag, "%d expected quantities not found in the output of print()" % int(P[T.P_MISSING])))
+        else:
+            for q, ((blk, j), nm) in enumerate(zip(PRINT_MAP, PRINT_NAMES)):
+                g = (S if blk == "S" else X)[j]
+                p = P[q]
+                ok = (p != p and g != g) or abs(p - g) <= 5.1e-6 * abs(g) + 1e-300
+                if not ok:
+                    acc.fails.append(("%s:print:%s" % (tag, nm), "print() shows %s = %r, the getter returns %r" % (nm, p, g)))
+                    break
+    return S_arr
+
+
 def evaluate_compact(chunk):
     return evaluate_points([from_compact(it) for it in chunk])
 
@@ -426,8 +499,10 @@ def nonfinite(S):
 def evaluate_points(cases, history=True):
     """cases: list of case dicts evaluated in ONE harness process per pass.  Runs the passes and the oracle.
     returns dict(n, thrown, fails, worst, keys, exc_classes)"""
-    r1 = T.run_cases(cases, "S")
-    hist = T.history_mismatches(cases, "S", r1) if history and len(cases) > 1 else []
+    # X: every accessor through its other overloads and the derived getters; P: print() (every 8th case: it is slow)
+    ops1 = ["SXP" if i % 8 == 0 else "SX" for i in range(len(cases))]
+    r1 = T.run_cases(cases, ops1)
+    hist = T.history_mismatches(cases, ops1, r1) if history and len(cases) > 1 else []
     alive = [i for i, r in enumerate(r1) if not r.exc]
     # pass 2: other basis from what the model reports
     c2 = []
@@ -496,6 +571,14 @@ def evaluate_points(cases, history=True):
             continue
         if forced and S[T.PROBLEM] != 0:
             out["forced_problem"] += 1
+        S_arr = check_overloads(acc, c, S, r.X, c["basis"], r.P)
+        if S_arr is not None:
+            # the oracle on what the ARRAY getters report
+            m2a = [x * x for x in (S_arr[T.MHH0], S_arr[T.MHH1], S_arr[T.MAH1], S_arr[T.MHM1], S[T.SM_MW], S[T.SM_MZ])]
+            m2pos = [x for x in m2a if x > 0] or [1.0]
+            check_common(acc, c, S_arr, c["basis"] + "[array-getters]", max(m2a), min(m2pos))
+            if c["basis"] == "M":
+                cmp_masses(acc, "M[array-getters]", p[:4], S_arr, max(max(m2a), max(x * x for x in p[:4])), "input")
         if c["basis"] == "G" and forced and S[T.PROBLEM] != 0:
             # genuinely tachyonic gauge-basis point kept alive by force_output: the stored inputs, MW, MZ, Goldstones,
             # fermions and mixing must still be right; there is no mass-basis input that describes it (no round trip)
@@ -778,6 +861,7 @@ def run(ctx):
     ctx.assumptions += [
         "tolerance on squared masses 2e-10 x m^2_max absolute (= 1e-10 x m^2_max/m^2 relative on the mass), m^2 over {mh,mH,mA,mH+,MW,MZ}; on the angle 1e-10 x m^2_max/m^2_min(>0) x (mH^2+mh^2)/(mH^2-mh^2)",
         "thdm::Config (running_couplings, force_output) is part of the alphabet: both are deviation dimensions, the core product cycles through all four settings, the boundary families (mh = 0, mh == mH, sin(beta-alpha) = +-1, degenerate and extreme masses, extreme tan(beta)) are run for all four; every point refused with EPhysicalProblem is constructed again with force_output and must reproduce its input; no reported value may be non-finite",
+        "every public get_* accessor of THDM / THDM_mass_eigenstates / THDM_parameters (enumerated from the headers at run time; InfraError if the harness does not read one) is read through all overloads: array == indexed and matrix == element getter bitwise, derived getters (v_sqr, sin/cos/tan beta, beta, eta, sin/cos(beta-alpha), LambdaFive, LambdaSixSeven, v1, v2, g1, g2, EWSB equations) consistent to a few ulp, print() == getters to 6 digits (every 8th point); the oracle also runs on the array-getter values when they differ",
         "a constructor exception is accepted only as EPhysicalProblem on a gauge-basis point (tachyon) or on a mass-basis point with mh = 0 (rounding of the massless state); any other refusal of a lattice point is a violation",
         "angle clause skipped at exactly mh == mH; (sin,cos) ~ (-sin,-cos) identified when |cos(beta-alpha)| < 1e-7",
         "lambda_1..5 after the round trip compared with tolerance 1e-10 x sum of |terms| of the closed-form inversion",
